@@ -49,7 +49,7 @@ class World:
             return self.conns.setdefault(serial, {"tracked": [], "untracked": [], "session": None, "conn": None})
 
 
-def make_env(P, servertype, commtimeout, linger=30.0, pool=(2, 40)):
+def make_env(P, servertype, commtimeout, linger=30.0, pool=(2, 40), variant=None):
     world = World()
     ctx = P.callcontext.current_context
 
@@ -101,7 +101,7 @@ def make_env(P, servertype, commtimeout, linger=30.0, pool=(2, 40)):
                 e["tracked"].append(self.ctor_res)
             return ctx.client._vserial
 
-    fx = fixture.Fixture(servertype=servertype, COMMTIMEOUT=commtimeout, THREADPOOL_SIZE=pool[1], THREADPOOL_SIZE_MIN=pool[0], ITER_STREAMING=True, ITER_STREAM_LINGER=linger)
+    fx = fixture.Fixture(servertype=servertype, COMMTIMEOUT=commtimeout, THREADPOOL_SIZE=pool[1], THREADPOOL_SIZE_MIN=pool[0], ITER_STREAMING=True, ITER_STREAM_LINGER=linger, variant=variant)
     fx.register(Svc(), "svc")
     fx.register(Sess, "sess")
 
@@ -509,7 +509,8 @@ def run_shard(shard, rec):
     r = gen.rng(rec.seed, "c13", repr(sorted(shard.items())))
     sername = shard["serializer"]
     if shard["kind"] == "timeout":
-        fx, world = make_env(P, shard["servertype"], 0.25)
+        fx, world = make_env(P, shard["servertype"], 0.25, variant=fixture.variant_for(rec.seed, "c13", repr(sorted(shard.items()))))
+        rec.count("fixture_variant:" + fx.variant)
         try:
             ser = P.serializers.serializers[sername]
             reqlen = len(wire.encode(wire.INVOKE, 0, 9, ser.serializer_id, ser.dumpsCall("svc", "noop", ("p" * 30,), {})))
@@ -523,7 +524,8 @@ def run_shard(shard, rec):
             fx.stop()
         return
     if shard["kind"] == "churn":
-        fx, world = make_env(P, shard["servertype"], 0.0, 30.0, pool=(1, 12))
+        fx, world = make_env(P, shard["servertype"], 0.0, 30.0, pool=(1, 12), variant=fixture.variant_for(rec.seed, "c13", repr(sorted(shard.items()))))
+        rec.count("fixture_variant:" + fx.variant)
         try:
             yieldinj.enable(("Pyro5/svr_threads.py", "Pyro5/svr_multiplex.py"), 0.2, rec.seed * 13 + shard["rep"], max_sleep=0.003)
             for h in range(shard["histories"]):
@@ -540,7 +542,8 @@ def run_shard(shard, rec):
             yieldinj.disable()
             fx.stop()
         return
-    fx, world = make_env(P, shard["servertype"], 0.0, shard.get("linger", 30.0))
+    fx, world = make_env(P, shard["servertype"], 0.0, shard.get("linger", 30.0), variant=fixture.variant_for(rec.seed, "c13", repr(sorted(shard.items()))))
+    rec.count("fixture_variant:" + fx.variant)
     try:
         ser = P.serializers.serializers[sername]
         reqlen = len(wire.encode(wire.INVOKE, 0, 9, ser.serializer_id, ser.dumpsCall("svc", "noop", ("p" * 30,), {})))
